@@ -16,6 +16,7 @@ mod egt;
 mod eg14;
 mod egr;
 mod egq;
+mod eg3;
 
 fn main() {
     common::install_panic_hook();
@@ -40,6 +41,7 @@ fn main() {
         "eg14" => eg14::main(&a),
         "egr" => egr::main(&a),
         "egq" => egq::main(&a),
+        "eg3" => eg3::main(&a),
         "features" => {
             println!("checks={} explanations={}", cfg!(feature = "checks"), cfg!(feature = "explanations"));
         }
